@@ -337,8 +337,9 @@ func (se *specEnv) evalIdent(name string) (specVal, error) {
 		return specVal{t: TFalse}, nil
 	case "nil":
 		return specVal{isNil: true, t: IntLit(0)}, nil
-	case "result":
-		if v, ok := se.binds["result"]; ok {
+	case "result", "retval":
+		// `retval` always means the function's results (for functions that have a parameter called result)
+		if v, ok := se.binds["result"]; ok && name == "result" {
 			return v, nil
 		}
 		if len(se.results) == 1 {
